@@ -23,6 +23,8 @@ type ModifyStream struct {
 	SendErr error // returned by Send when set (after SendOK more sends)
 	SendOK  int   // number of sends that still succeed before SendErr applies (-1: unlimited)
 	closed  bool
+	nCalls  int
+	failed  bool
 
 	// SendGate, when non-nil, is received from before every Send returns (scheduler control).
 	SendGate chan struct{}
@@ -32,6 +34,17 @@ type ModifyStream struct {
 	in     chan recvItem
 	NRecv  int // Recv calls entered
 	CloseN int // CloseSend calls
+	// CloseEOF makes CloseSend end the receive side too (as a server does when the client half-closes).
+	CloseEOF bool
+	// BreakOnSendErr makes a failed Send surface on the receive side as well (as gRPC does).
+	BreakOnSendErr bool
+}
+
+// RecvEntered returns how many times Recv was entered.
+func (m *ModifyStream) RecvEntered() int {
+	m.mu.Lock()
+	defer m.mu.Unlock()
+	return m.NRecv
 }
 
 type recvItem struct {
@@ -43,14 +56,46 @@ func NewModifyStream(ctx context.Context) *ModifyStream {
 	return &ModifyStream{ctx: ctx, in: make(chan recvItem, 1024), SendOK: -1}
 }
 
+// SendCalls returns the number of Send calls that completed (successfully or not).
+func (m *ModifyStream) SendCalls() int {
+	m.mu.Lock()
+	defer m.mu.Unlock()
+	return m.nCalls
+}
+
+// SendFailed reports whether some Send returned an error.
+func (m *ModifyStream) SendFailed() bool {
+	m.mu.Lock()
+	defer m.mu.Unlock()
+	return m.failed
+}
+
+// SetGate installs (or removes) the channel every Send waits on before it proceeds.
+func (m *ModifyStream) SetGate(g chan struct{}) {
+	m.mu.Lock()
+	defer m.mu.Unlock()
+	m.SendGate = g
+}
+
 func (m *ModifyStream) Send(r *spb.ModifyRequest) error {
-	if m.SendGate != nil {
-		<-m.SendGate
+	m.mu.Lock()
+	g := m.SendGate
+	m.mu.Unlock()
+	if g != nil {
+		<-g
 	}
 	m.mu.Lock()
+	m.nCalls++
 	if m.SendErr != nil && m.SendOK == 0 {
 		err := m.SendErr
+		first := !m.failed
+		m.failed = true
+		closed := m.closed
 		m.mu.Unlock()
+		if first && !closed && m.BreakOnSendErr {
+			// a stream whose Send failed is broken: Recv reports the error too
+			m.put(recvItem{err: err})
+		}
 		return err
 	}
 	if m.SendOK > 0 {
@@ -90,11 +135,21 @@ func (m *ModifyStream) Recv() (*spb.ModifyResponse, error) {
 	return it.r, it.err
 }
 
-// Deliver makes the next Recv return r.
-func (m *ModifyStream) Deliver(r *spb.ModifyResponse) { m.in <- recvItem{r: r} }
+// Deliver makes the next Recv return r (false: the receive side was already ended).
+func (m *ModifyStream) Deliver(r *spb.ModifyResponse) bool { return m.put(recvItem{r: r}) }
 
 // Fail makes the next Recv return err.
-func (m *ModifyStream) Fail(err error) { m.in <- recvItem{err: err} }
+func (m *ModifyStream) Fail(err error) bool { return m.put(recvItem{err: err}) }
+
+func (m *ModifyStream) put(it recvItem) bool {
+	m.mu.Lock()
+	defer m.mu.Unlock()
+	if m.closed {
+		return false
+	}
+	m.in <- it
+	return true
+}
 
 // EOF ends the receive side cleanly.
 func (m *ModifyStream) EOF() {
@@ -109,7 +164,11 @@ func (m *ModifyStream) EOF() {
 func (m *ModifyStream) CloseSend() error {
 	m.mu.Lock()
 	m.CloseN++
+	eof := m.CloseEOF
 	m.mu.Unlock()
+	if eof {
+		m.EOF()
+	}
 	return nil
 }
 func (m *ModifyStream) Header() (metadata.MD, error) { return nil, nil }
